@@ -5,9 +5,12 @@ use std::path::{Path, PathBuf};
 pub fn path_exists_false(_p: &Path) -> bool { false }
 pub fn path_is_dir_false(_p: &Path) -> bool { false }
 pub fn path_is_file_false(_p: &Path) -> bool { false }
-/// `Path::canonicalize` — FFI (realpath). `Err` = "use the path as given", the repo's own fallback.
-pub fn canonicalize_err(_p: &Path) -> std::io::Result<PathBuf> {
-    Err(std::io::Error::from(std::io::ErrorKind::NotFound))
+/// `Path::canonicalize` — FFI (realpath). Identity: "the path exists and is already canonical" — the same
+/// PathBuf the repository's own fallback (`unwrap_or_else(|_| path.clone())`) produces. Deliberately NOT an `Err`:
+/// dropping an `io::Error` sends CBMC into the recursive drop glue of its bit-packed representation
+/// (`drop_glue::<io::Error>` unwound 41 levels, 9 GB) — measured on the first F4 harnesses.
+pub fn canonicalize_err(p: &Path) -> std::io::Result<PathBuf> {
+    Ok(p.to_path_buf())
 }
 /// `fs::read_to_string` — FFI. `Err`: file contents are served from `file_cache` only.
 pub fn read_to_string_err<P: AsRef<Path>>(_p: P) -> std::io::Result<String> {
